@@ -292,3 +292,77 @@ def oracle_c12_buggify(an):
             V('connection_taken_down', '%s closed the connection after an application failure' % ev['ep'], ev['seq'], ep=ev['ep'])
             break
     return out
+
+
+# ---------------------------------------------------------------------------------------------
+# C13 (second clause): an incoming request that reuses an id still active on the receiver
+# ---------------------------------------------------------------------------------------------
+
+def gen_id_reuse(seed, opts=None):
+    rng = random.Random(seed ^ 0x1D2E)
+    role = _pick(rng, [(2, 'server'), (1, 'client')])
+    framing = _pick(rng, [(2, 'tcp'), (1, 'ws')])
+    sid = (1 if role == 'server' else 2) + 2 * rng.randint(0, 5)
+    first_kind = _pick(rng, [(3, 'stream'), (2, 'channel'), (1, 'rr')])
+    count = rng.randint(2, 6)
+    n0 = rng.randint(1, count - 1) if first_kind != 'rr' else 1
+    ia0 = {'id': 0, 'kind': first_kind, 'by': 'peer', 'sid': sid}
+    if first_kind == 'rr':
+        ia0['resp'] = {'mode': 'delay', 'delay': 0.05, 'dlen': 20, 'mlen': None}
+    else:
+        ia0['resp'] = {'src': _pick(rng, [(1, 'manual'), (1, 'gen'), (1, 'agen')]), 'count': count, 'lens': [[rng.randint(1, 40), None]],
+                       'end': 'separate'}
+        if first_kind == 'channel':
+            ia0['resp']['sub'] = {'initial_n': 1, 'refill': [1]}
+    dup_kind = _pick(rng, [(1, 'rr'), (1, 'stream'), (1, 'channel'), (1, 'fnf')])
+    ia1 = {'id': 1, 'kind': dup_kind, 'by': 'peer', 'sid': sid, 'resp': {'mode': 'now', 'dlen': 10, 'mlen': None}}
+    if dup_kind in ('stream', 'channel'):
+        ia1['resp'] = {'src': 'manual', 'count': 2, 'lens': [[8, None]], 'end': 'separate'}
+    t_type = {'rr': 'REQUEST_RESPONSE', 'stream': 'REQUEST_STREAM', 'channel': 'REQUEST_CHANNEL', 'fnf': 'REQUEST_FNF'}
+    script = []
+    if role == 'server':
+        script.append({'at': 0.0, 'frame': {'t': 'SETUP', 'keepalive_ms': 10_000_000, 'lifetime_ms': 20_000_000}})
+    script.append({'at': 0.005, 'frame': {'t': t_type[first_kind], 'sid': sid, 'n': n0, 'data': app.content(0, 'q', 0, 'D', 20).hex()}})
+    script.append({'at': round(0.010 + rng.choice([0, 0.001, 0.02]), 4),
+                   'frame': {'t': t_type[dup_kind], 'sid': sid, 'n': 5, 'data': app.content(1, 'q', 0, 'D', 20).hex()}})
+    if first_kind != 'rr':
+        script.append({'at': 0.1, 'frame': {'t': 'REQUEST_N', 'sid': sid, 'n': 100}})
+    plan = {'exec': 'peer', 'profile': 'id-reuse', 'seed': seed, 'role': role, 'framing': framing, 'loop': {'eps': 0.0},
+            'endpoint': {'keepalive_ms': 10_000_000}, 'auto': {'keepalive': 'echo'},
+            'link': {'c2s': {'latency': 0.001, 'seed': 1}, 's2c': {'latency': 0.001, 'seed': 2}},
+            'script': script, 'interactions': [ia0, ia1], 'horizon': 1.0, 'nontrivial': True,
+            'reuse': {'sid': sid, 'first_kind': first_kind, 'dup_kind': dup_kind, 'count': count, 'n0': n0}}
+    return plan
+
+
+def oracle_c13_reuse(world):
+    out = []
+    V = lambda cls, msg, seq=None, **f: out.append(Violation('C13', 'C13.' + cls, msg, seq, **f))
+    plan = world.plan
+    h = world.history
+    ru = plan['reuse']
+    role = plan['role']
+    sid = ru['sid']
+    facts = dict(role=role, first_kind=ru['first_kind'], dup_kind=ru['dup_kind'], framing=plan.get('framing', 'tcp'))
+    mark = next((e['seq'] for e in h if e['k'] == 'mark'), float('inf'))
+    out_dir = 's2c' if role == 'server' else 'c2s'
+    emitted = [e for e in h if e['k'] == 'wire' and e['dir'] == out_dir and e['f']['sid'] == sid and e['seq'] < mark]
+    hnd = [e for e in h if e['k'] == 'hnd' and e.get('iid') == 1 and e['seq'] < mark]
+    if hnd:
+        V('duplicate_id_accepted', 'a %s request re-using the active id %d reached the application handler' % (ru['dup_kind'], sid),
+          hnd[0]['seq'], **facts)
+    rejected = [e for e in emitted if e['f']['type'] == 'ERROR' and e['f'].get('code_name') == 'REJECTED']
+    if not rejected:
+        V('duplicate_id_not_rejected', 'no ERROR[REJECTED] for a request re-using the active id %d' % sid, None, **facts)
+    # the original stream keeps working
+    if ru['first_kind'] == 'rr':
+        exp = [app.nb(app.content(0, 'r', 0, 'D', 20))]
+    else:
+        exp = [app.nb(app.content(0, 'r', k, 'D', plan['interactions'][0]['resp']['lens'][0][0])) for k in range(ru['count'])]
+    got = [e['f']['data'] for e in emitted if e['f']['type'] == 'PAYLOAD' and (e['f']['data'] or e['f']['metadata'])]
+    if got != exp:
+        foreign = any(g.startswith(b'D01') for g in got)
+        V('original_stream_replaced' if foreign else 'original_stream_disturbed',
+          'the stream that owned id %d delivered %d of %d elements after the duplicate request' % (sid, len(got), len(exp)),
+          None, **facts)
+    return out
